@@ -86,6 +86,13 @@ Theorem C19_checker_sound : forall s0 ws obs,
 Proof. exact checker_sound. Qed.
 Print Assumptions C19_checker_sound.
 
+(** the linear-time variant of the checker that the harness evaluates (needed for prefixes of
+    thousands of keys) decides the same thing for contents with unique keys *)
+Theorem C19_fast_checker_equiv : forall fin s0 ws obs,
+  Forall wf (s0 :: ws) -> check_trace_fast fin s0 ws obs = check_trace fin s0 ws obs.
+Proof. exact check_trace_fast_eq. Qed.
+Print Assumptions C19_fast_checker_equiv.
+
 (** multi-member store: availability is the quorum, not one endpoint.  A client that holds the
     endpoints of all [n] members can reach a live member for every set of stopped members that
     leaves the quorum intact (so the pulls of C19_converges keep succeeding while one server of
